@@ -228,6 +228,64 @@ def run_read_case(ctx, suite, s, oracle=None, case=None, nontrivial=True):
     return got
 
 
+def run_readfrag_case(ctx, suite, name, text, case):
+    """one coarse fragment definition: strip_bonding_descriptors + read_fragment_cgsmiles on the implementation,
+    `readFragCG` on the model; the node dictionaries the implementation ends with are rebuilt from the model's
+    three parts exactly as read_fragment_cgsmiles attaches them"""
+    from cgsmiles.read_fragments import strip_bonding_descriptors
+    from cgsmiles.cgsmiles_utils import read_fragment_cgsmiles
+    try:
+        with lib.quiet():
+            smile, bonding, _, attrs = strip_bonding_descriptors(text)
+            g = read_fragment_cgsmiles(smile, name, bonding, attrs)
+        got = ('ok', dump_cg(g))
+    except RecursionError:
+        raise
+    except (StopIteration, RuntimeError):
+        got = ('err', 'other')
+    except Exception as err:    # noqa: BLE001
+        got = ('err', lib.err_class(err))
+    ctx.count(suite, lib.stable_hash([name, text]), nontrivial='[' in text[1:], sample=text)
+    ctx.feature(f'{suite}:{got[0] if got[0] == "ok" else "err-" + got[1]}')
+    if ctx.oracle_only:
+        return got
+    rep = ctx.model({'op': 'readfragcg', 's': text})
+    if 'fail' in rep:
+        raise RuntimeError('driver protocol failure: ' + rep['fail'])
+    if rep.get('err') == 'unsupported':
+        ctx.skip_unsupported()
+        return got
+    if got[0] == 'err':
+        if 'ok' in rep or rep.get('err') != got[1]:
+            ctx.disagree(suite, case, f'fragment {text!r}: implementation raises {got[1]}, model: '
+                                      f'{"a fragment" if "ok" in rep else rep.get("err")}')
+        return got
+    if 'ok' not in rep:
+        ctx.disagree(suite, case, f'fragment {text!r}: implementation reads it, model raises {rep.get("err")}')
+        return got
+    m = rep['ok']
+    mg = model_cg(m['g'])
+    bond = {k: v for k, v in m['bonding']}
+    extra = {k: [[a, model_attr_val(v)] for a, v in d] for k, d in m['attrs']}
+    nodes = []
+    for k, attrs in mg['n']:
+        d = {a: v for a, v in attrs}
+        if 'fragname' in d:
+            d['atomname'] = d['fragname']
+        if k in bond:
+            d['bonding'] = ['o', repr(list(bond[k]))]
+        d['fragname'] = ['s', name]
+        d['fragid'] = ['f', '0.0']
+        d['w'] = ['f', '1.0']
+        for a, v in extra.get(k, []):
+            d[a] = v
+        nodes.append([k, sorted([a, v] for a, v in d.items())])
+    diff = lib.diff_obj({'n': nodes, 'e': mg['e']}, got[1], 'fragment')
+    if diff:
+        ctx.disagree(suite, case, f'fragment {text!r}: ' + diff)
+    return got
+
+
 # ----------------------------------------------------------------------------------------------
 #  writer
 # ----------------------------------------------------------------------------------------------
